@@ -92,6 +92,7 @@ def execute(scenario):
         for st in ep["steps"]:
             step_of[st["seq"]] = st
         cur_step = None
+        refused = set()
         for r in recs:
             if not (ep["reset"]["seq"] < r["seq"] <= end_seq):
                 continue
@@ -124,6 +125,7 @@ def execute(scenario):
                         tainted = True
                         break
                     # refused decision (account broke): nothing executed, nothing recorded - C09's business
+                    refused.add(k)
                     continue
                 # recorded entry
                 if reb["time"] != last_market_t:
@@ -208,6 +210,12 @@ def execute(scenario):
             if st["done_before"]:
                 continue
             k = st["k"]
+            broke_now = (not isinstance(st["nlv"], str)) and st["nlv"] <= 0
+            if k in refused or (st.get("exc") == "EndOfEpisodeError" and broke_now):
+                # the account is insolvent (cumulated fees / prices): whether the episode ends properly is C09's
+                # business; nothing was executed without being recorded, so C07 has nothing more to say here
+                probe("insolvent_out_of_domain")
+                break
             if st.get("exc") is not None:
                 violate("unexpected_exception", "step {} raised {}: {} [{}]".format(k, st["exc"], st.get("msg"), st.get("site")), op=k,
                         exc=st["exc"], where="step", site=st.get("site"))
